@@ -52,6 +52,10 @@ fn us(v: &Value) -> usize {
 trait Elem: Clone + std::fmt::Display + PartialEq + pushr::push::stack::PushPrint {
     fn from_j(v: &Value) -> Self;
     fn to_j(&self) -> Value;
+    /// an element nested `n` levels deep around `leaf` (items only): ( n ( n-1 ( ... ( 1 leaf ) ... ) ) )
+    fn deep(_n: usize, _leaf: i32) -> Option<Self> {
+        None
+    }
 }
 impl Elem for i32 {
     fn from_j(v: &Value) -> Self {
@@ -68,6 +72,13 @@ impl Elem for Item {
     fn to_j(&self) -> Value {
         item2j(self)
     }
+    fn deep(n: usize, leaf: i32) -> Option<Self> {
+        let mut it = Item::int(leaf);
+        for k in 1..=n {
+            it = Item::list(vec![it, Item::int(k as i32)]);
+        }
+        Some(it)
+    }
 }
 
 fn stack_contents<T: Elem>(s: &PushStack<T>) -> Value {
@@ -77,6 +88,23 @@ fn stack_contents<T: Elem>(s: &PushStack<T>) -> Value {
 fn stack_op<T: Elem>(s: &mut PushStack<T>, m: &str, a: &[Value]) -> Value {
     match m {
         "to_string" => val(json!(s.to_string())),
+        // an element nested far deeper than an event can carry is pushed, printed, probed and popped again:
+        // the printed stack, the printed copy of the element, equal_at with itself and with one that differs in the leaf
+        "deep_probe" => {
+            let (n, leaf) = (us(&a[0]), a[1].as_i64().unwrap() as i32);
+            match (T::deep(n, leaf), T::deep(n, leaf + 1)) {
+                (Some(d), Some(other)) => {
+                    s.push(d.clone());
+                    let text = s.to_string();
+                    let copy = s.copy(0).map(|x| x.to_string()).unwrap_or_default();
+                    let same = s.equal_at(0, &d);
+                    let differs = s.equal_at(0, &other);
+                    let back = s.pop().map(|x| x == d).unwrap_or(false);
+                    val(json!({"text": text, "copy": copy, "same": same, "other": differs, "back": back}))
+                }
+                _ => none(),
+            }
+        }
         "size" => val(json!(s.size())),
         "last_eq" => val(json!(s.last_eq(&T::from_j(&a[0])))),
         "equal_at" => opt(s.equal_at(us(&a[0]), &T::from_j(&a[1])), |b| json!(b)),
@@ -310,6 +338,15 @@ fn graph_op(gs: &mut Vec<Graph>, m: &str, a: &[Value]) -> Value {
                 none()
             }
         }
+        // the same question asked the other way round: diff(working graph, snapshot k)
+        "diff_rev" => {
+            let k = us(&a[0]);
+            if k < gs.len() {
+                val(json!(gs[0].diff(&gs[k]).is_some()))
+            } else {
+                none()
+            }
+        }
         // the textual forms themselves
         "to_string" => val(json!(gs[0].to_string())),
         "diff_text" => {
@@ -466,6 +503,14 @@ fn gen_call(m: &str, a: &[Value], st: Option<&Value>) -> Value {
             CodeGenerator::random_float_vector(a[0].as_i64().unwrap() as i32, j2f(&a[1]), j2f(&a[2])),
             |v| json!(v.values.iter().map(|f| f2j(*f)).collect::<Vec<_>>()),
         ),
+        // a long vector: only its length and its number of TRUE bits
+        "random_bool_vector_count" => {
+            let (n, sp) = (a[0].as_i64().unwrap() as i32, j2f(&a[1]));
+            match CodeGenerator::random_bool_vector(n, sp) {
+                Some(v) => some(json!({"len": v.values.len() as i64, "trues": v.values.iter().filter(|b| **b).count() as i64})),
+                None => none(),
+            }
+        }
         // many draws at once: which positions were ever TRUE, and the range of TRUE counts
         "random_bool_vector_cover" => {
             let (n, sp, draws) = (a[0].as_i64().unwrap() as i32, j2f(&a[1]), us(&a[2]));
